@@ -64,9 +64,15 @@ func (bf *BanFile) Add(ip string, until *time.Time) error {
 		return fmt.Errorf("marshal yaml: %v", err)
 	}
 
-	err = os.WriteFile(filepath.Join(bf.filePath), out, 0644)
+	// Write the list to a temporary file in the same directory and rename it over the ban file, so that a
+	// crash leaves either the old or the new list, never a truncated file.
+	tempFilePath := filepath.Join(bf.filePath) + ".tmp"
+	err = os.WriteFile(tempFilePath, out, 0644)
 	if err != nil {
 		return fmt.Errorf("write file: %v", err)
+	}
+	if err := os.Rename(tempFilePath, filepath.Join(bf.filePath)); err != nil {
+		return fmt.Errorf("rename temporary file to ban file: %v", err)
 	}
 
 	return nil
